@@ -467,6 +467,18 @@ Proof.
   apply flags_function. apply normalize_url_idem, O.
 Qed.
 
+(* the classification is a function of the canonical TEXT: two references that print the same text are the same reference *)
+Theorem flags_function_of_text u1 u2 :
+  one_port (map lower (u_host u1)) = true -> wf_plain (normalize_url u1) = true ->
+  one_port (map lower (u_host u2)) = true -> wf_plain (normalize_url u2) = true ->
+  ref_string (ref_of_url u1) = ref_string (ref_of_url u2) -> ref_of_url u1 = ref_of_url u2.
+Proof.
+  intros O1 W1 O2 W2 E.
+  pose proof (ref_text_roundtrip u1 O1 W1) as R1. pose proof (ref_text_roundtrip u2 O2 W2) as R2.
+  rewrite E in R1. rewrite R1 in R2.
+  apply (f_equal (fun x => match x with POk r => r | _ => ref_of_url u1 end)) in R2. exact R2.
+Qed.
+
 (* starting from a text, in any spelling (scheme and host in any case, default port, duplicate slashes): if what it
    canonicalises to is plain, then printing the reference read from it and reading the print gives the same reference *)
 Theorem text_canonicalisation_idempotent s u : parse_url s = POk u ->
